@@ -1,8 +1,8 @@
 PROPS["C31"] = dict(
     families=["anon"],
     label="full over the model (shape equivariance of the interpretation under order-preserving renamings, at every heads; graph "
-          "isomorphism); REFUTED on the implementation for GraphemeCluster text widths and for keys / mark names containing ASCII "
-          "control characters (known findings)",
+          "isomorphism); REFUTED on the implementation for GraphemeCluster text widths (known finding); the DEL-rank key collision "
+          "and the one-at-a-time delivery panic it found are repaired",
     level_text="Crdt/Anon.v models anonymize.rs as a renaming of the history (actor map on change actors, op ids, object ids, element "
                "ids, predecessors; key and mark-name substitution; a fresh value of the same kind per occurrence; hash map on "
                "dependencies) and defines the shape of an observed state (types, nesting, per key / element the register's value "
@@ -13,8 +13,9 @@ PROPS["C31"] = dict(
                "ancestors, seq, start_op, op counts map through the renaming; op-id order follows from actor order (counters >= 1); "
                "equal shapes give equal object types, key counts, list lengths and text widths in code points / UTF-8 / UTF-16; "
                "order preservation is necessary (witness); the code's actor map (rank in the sorted actor set, big-endian after a "
-               "common prefix) is order preserving; the structural character substitution keeps UTF-8 lengths, and keeps classes / is "
-               "injective exactly when no control character is sent to rank 0x20 (refuted in general: the DEL-rank defect). Tied to "
+               "common prefix) is order preserving; the structural character substitution keeps UTF-8 lengths and character classes and is "
+               "injective for every permutation of the ranks (the model follows the repaired structural_character_from_rank); the "
+               "whitespace class of content strings is not kept (refuted, finer than the property). Tied to "
                "the code by the family `anon`: Automerge::anonymize on multi-replica histories; the bijection by (actor rank, seq); "
                "op-by-op canonical comparison (is an order-preserving renaming); state shape read through the public API at every "
                "recorded head set; private data replaced; save/load/re-save; anonymize twice; and the model evaluates the ORIGINAL and "
@@ -22,7 +23,7 @@ PROPS["C31"] = dict(
     rule="40 (thorough 240) histories of the family hist plus 120 (720) own programs of 15-60 (20-110) steps over 2-4 replicas in the "
          "four text encodings with text-heavy / mark-heavy / conflict-heavy / mixed profiles (multi-byte, combining, ZWJ, whitespace, "
          "control characters; counters, increments, conflicting objects; commit messages and times; actor changes; TIE steps: two synchronized replicas each make one op, so that the two ops have one counter and only the actor order decides the conflict / sibling order - those head sets are compared and sent to the model first), 12 (60) targeted "
-         "control-character key programs; every recorded head set (up to 5 / 8 per history) compared. Non-trivial: >= 3 changes and "
+         "control-character key programs and 8 (24) one-at-a-time delivery probes (both repaired defects, expected clean); every recorded head set (up to 5 / 8 per history) compared. Non-trivial: >= 3 changes and "
          ">= 8 ops; distinct by the change hashes.",
     assumptions=["anonymize draws its own entropy (no public seed): the anonymized side of a case is not reproducible bit for bit, "
                  "the checks are on canonical forms", "grapheme segmentation is outside the model",
